@@ -215,7 +215,7 @@ func resolvePasses(c *Ctx) {
 		}
 		nRec++
 		for _, native := range []bool{false, true} {
-			e := &sengine{pkg: rpkg, stopBlocks: map[*ssa.BasicBlock]bool{site.head: true}}
+			e := &sengine{pkg: rpkg, ctx: c, stopBlocks: map[*ssa.BasicBlock]bool{site.head: true}}
 			e.typeAssert = func(fr *sframe, x *ssa.TypeAssert, v iv) (iv, bool) {
 				if nm := named(deref(x.AssertedType)); nm != nil && nm.Obj().Name() == "VarExpr" {
 					if x.CommaOk {
@@ -238,7 +238,10 @@ func resolvePasses(c *Ctx) {
 				}
 				return iv{}, callDefault
 			}
-			e.enter = func(callee *ssa.Function, args []iv) bool { return false }
+			// a helper of the visitor that does the recording for one argument is part of the iteration
+			e.enter = func(callee *ssa.Function, args []iv) bool {
+				return callee.Name() != "recordVar" && callsWithin(callee, "recordVar", 2)
+			}
 			e.startAt(site.fn, site.body, nil)
 			paths, silent := 0, 0
 			for _, o := range e.outcomes {
